@@ -89,6 +89,9 @@ def cases(tier, seed):
         out.append({"id": "subset-large:seeds%d-%d" % (5 * blk, 5 * blk + 4),
                     "kind": "biglarge", "seeds": list(range(5 * blk,
                                                             5 * blk + 5))})
+    # the numerical lens wrapper with particular numbers of locations per
+    # call (1, 2, a block boundary +- 1)
+    out.append({"id": "lens-point-counts", "kind": "lenscounts"})
     # a detector so large / far that part of it is beyond kr = 1000: crops
     # and point lists that hold only distant pixels
     out.append({"id": "grid-far:mie", "kind": "gridfar"})
@@ -273,7 +276,9 @@ def _run_grid(case, ck):
 
 
 MIXED = np.array([[0.0, 0.0, 0.0], [0.3, -0.2, 0.5], [-0.4, 0.25, -0.3],
-                  [0.3, -0.2, 0.0], [0.0, 0.0, 1.0], [0.9, 0.7, -1.2]])
+                  [0.3, -0.2, 0.0], [0.0, 0.0, 1.0], [0.9, 0.7, -1.2],
+                  # exactly below the particle (H.C0): polar angle 0
+                  [H.C0[0], H.C0[1], 0.0], [H.C0[0], H.C0[1], 1.5]])
 
 
 def _run_mixedz(case, ck):
@@ -305,11 +310,20 @@ def _run_mixedz(case, ck):
         ck.trans += 1
         _same(ck, "points-call-form", th, h, base, "%s: detector_points "
               "given as %s vs keyword arrays" % (th, fname))
-    for order in ([5, 4, 3, 2, 1, 0], [2, 0, 4, 1, 5, 3], [3, 1, 0, 5, 2, 4]):
+    from holopy.scattering import calc_field
+    fbase = calc_field(det(MIXED), scat, theory=_theory(th)[1], **OPT).values
+    for order in ([7, 6, 5, 4, 3, 2, 1, 0], [2, 0, 6, 4, 1, 7, 5, 3],
+                  [3, 6, 1, 0, 7, 5, 2, 4]):
         h = _holo(det(MIXED[order]), scat, _theory(th)[1]).values
         ck.trans += 1
         _same(ck, "points-order", th, h, base[order], "%s: the same points "
               "listed in order %r" % (th, order))
+        # all three components of the scattered field as well
+        f = calc_field(det(MIXED[order]), scat, theory=_theory(th)[1],
+                       **OPT).values
+        ck.trans += 1
+        _same(ck, "points-order-field", th, f, fbase[order], "%s: field at "
+              "the same points listed in order %r" % (th, order))
     for i in range(len(MIXED)):
         h = _holo(det(MIXED[i:i + 1]), scat, _theory(th)[1]).values
         ck.trans += 1
@@ -356,6 +370,52 @@ def _run_biglarge(case, ck):
             ck.true("subset-distinct", len(pairs) == k, "subset locations "
                     "repeat (k=%d seed=%d)" % (k, sd))
             acc.append(np.sort(sel)[:8])
+    return digest(*acc)
+
+
+def _run_lenscounts(case, ck):
+    import holopy as hp
+    from holopy.scattering import Sphere
+    from holopy.scattering.theory import Lens, Mie
+    sph = Sphere(n=1.59, r=0.5, center=(1.0, 0.9, 5.0))
+    n = 514
+    xs = 0.004 * np.arange(n)
+    ys = 0.5 + 0.003 * np.arange(n)
+
+    def run(idx):
+        with warnings.catch_warnings():
+            warnings.simplefilter("ignore")
+            th = Lens(0.8, Mie(False, False), 24, 24)
+            P = hp.detector_points(x=xs[idx], y=ys[idx], z=0.0)
+            ck.trans += 1
+            return _holo(P, sph, th).values
+    full = run(np.arange(n))
+    acc = [fp_values(full)]
+    for cnt in (1, 2, 3, 255, 256, 257, 258, 512, 513):
+        for start in (0, n - cnt):
+            idx = np.arange(start, start + cnt)
+            h = run(idx)
+            e = float(np.abs(h - full[idx]).max())
+            ck.metric("lens-point-counts", e)
+            ck.true("point-count-independent", h.shape == (cnt,) and
+                    e <= 1e-11, "Lens: the values at %d locations "
+                    "(starting at #%d) differ by %.2e from the same "
+                    "locations inside a %d-point call" % (cnt, start, e, n))
+    # 1 x N and N x 1 grids
+    for shape in ((1, 1), (1, 257), (257, 1)):
+        g = H.det_grid(shape, 0.01)
+        with warnings.catch_warnings():
+            warnings.simplefilter("ignore")
+            G = _holo(g, sph, Lens(0.8, Mie(False, False), 24, 24))
+            X, Y = np.meshgrid(g.x.values, g.y.values, indexing="ij")
+            P = hp.detector_points(x=X.ravel()[::-1].copy(),
+                                   y=Y.ravel()[::-1].copy(), z=0.0)
+            h = _holo(P, sph, Lens(0.8, Mie(False, False), 24, 24)).values
+        ck.trans += 2
+        gv = G.transpose("x", "y", "z").values.ravel()
+        e = float(np.abs(h[::-1] - gv).max())
+        ck.true("grid-vs-points", e <= 1e-11, "Lens on a %r grid vs the "
+                "same locations as a reversed point list: %.2e" % (shape, e))
     return digest(*acc)
 
 
@@ -531,7 +591,7 @@ def run_case(case):
     ck = Checker()
     fp = {"grid": _run_grid, "scripted": _run_scripted,
           "mixedz": _run_mixedz, "biglarge": _run_biglarge,
-          "gridfar": _run_gridfar,
+          "gridfar": _run_gridfar, "lenscounts": _run_lenscounts,
           "history": _run_history}[case["kind"]](case, ck)
     return ck.result(fp=fp)
 
